@@ -18,7 +18,10 @@ EXPLANATION = (
     "that A*A_inv = I, Xty and beta zero. (R2.3) in fit, A and Xty are updated in accumulate form from the batch, "
     "A_inv and beta are derived from them only and in def-use order; only __init__, init and fit write these "
     "fields; a new arm is initialised when a fit has happened; each predict reads exactly the documented fields. "
-    "(R2.4) rows are selected jointly by decisions == arm. Decides shape correctness for every number of features "
+    "(R2.4) rows are selected jointly by decisions == arm. (R2.5) may-alias analysis of the query parameter of each "
+    "model's predict: no in-place operation (augmented assignment, element store, out=, in-place method, a scaler "
+    "built with copy=False) may reach a value that can share memory with it, since the same matrix is handed to "
+    "every arm's model. Decides shape correctness for every number of features "
     "and query rows and the never-observed-arm model; numerical agreement with an oracle is not decided.")
 ASSUMPTIONS = ["numpy broadcasting / dot / squeeze shape rules as encoded in mabstat/rules/shapes.py",
                "scale=True path preserves shapes (sklearn StandardScaler.transform)",
